@@ -5,6 +5,10 @@ stdin : {"repo":..., "tmp":..., "shim":..., "G": grid units per nm,
                        "bonds": [[i,j],...],
                        "frames": [ {"xyz": [[ix,iy,iz],...] (grid integers), "box": [lx,ly,lz] | null} ],
                        "oob": [ix,iy,iz]  (content of the frame stored in front of frame 0, see below),
+                       "history": optional [ {"op":"call","call":{..}} | {"op":"rename_residue","res":i,"name":s} |
+                                   {"op":"rename_atom","atom":i,"name":s} | {"op":"set_element","atom":i,"element":s} |
+                                   {"op":"repoint_bond","bond":k,"new":[i,j]} ]  executed in order on ONE object
+                                   (replaces "calls"; the result list holds one entry per call step),
                        "calls": [ {"fn":"baker_hubbard", "freq":f, "exclude_water":b, "periodic":b, "sidechain_only":b,
                                    "distance_cutoff":x|null, "angle_cutoff":x|null},
                                   {"fn":"wernet_nilsson", ...}, {"fn":"kabsch_sander"} ] } ],
@@ -60,6 +64,33 @@ def build_traj(sysd, G):
         traj.unitcell_lengths = (np.array(boxes, dtype=np.float64) / G).astype(np.float32)
         traj.unitcell_angles = np.full((F, 3), 90.0, dtype=np.float32)
     return traj, big
+
+
+def apply_edit(top, st):
+    """in-place edits of a Topology that keep n_atoms and n_bonds"""
+    op = st["op"]
+    if op == "rename_residue":
+        top.residue(st["res"]).name = st["name"]
+    elif op == "rename_atom":
+        top.atom(st["atom"]).name = st["name"]
+    elif op == "set_element":
+        top.atom(st["atom"]).element = md.element.get_by_symbol(st["element"])
+    elif op == "repoint_bond":
+        top._bonds.pop(st["bond"])                     # no public API removes a bond
+        top.add_bond(top.atom(st["new"][0]), top.atom(st["new"][1]))
+    else:
+        raise ValueError("unknown edit %s" % op)
+
+
+def run_history(traj, steps):
+    """calls interleaved with in-place edits on ONE Trajectory/Topology object; returns the results of the calls"""
+    out = []
+    for st in steps:
+        if st["op"] == "call":
+            out.append(run_call(traj, st["call"]))
+        else:
+            apply_edit(traj.topology, st)
+    return out
 
 
 def err_class(e):
@@ -162,7 +193,10 @@ def main():
     out = {"systems": [], "store": []}
     for sysd in p.get("systems", []):
         traj, _big = build_traj(sysd, G)
-        out["systems"].append([run_call(traj, c) for c in sysd["calls"]])
+        if sysd.get("history") is not None:
+            out["systems"].append(run_history(traj, sysd["history"]))
+        else:
+            out["systems"].append([run_call(traj, c) for c in sysd["calls"]])
     if p.get("store"):
         lib = build_shim(p["repo"], p["shim"], p["tmp"])
         out["store"] = run_store(lib, p["store"])
